@@ -108,7 +108,9 @@ def live_case_to_request(env: app.Env, case: dict):
     """case: {stream, template, opts, clock} -> (T, url)."""
     case = dict(case, stream=resolve_stream(env, case["stream"]))
     consts = stream_constants(env, case["stream"])
-    T, start = strategies.resolve_clock(case["clock"], consts["ref_us"], consts["seg_us"], consts["tick_us"])
+    d = str(case["opts"].get("depth", "1800"))
+    depth_us = (int(d) if d.isdigit() and int(d) > 0 else 60) * 10**6
+    T, start = strategies.resolve_clock(case["clock"], consts["ref_us"], consts["seg_us"], consts["tick_us"], depth_us)
     opts = dict(case["opts"])
     if start is not None:
         opts["start"] = start
